@@ -33,6 +33,8 @@ struct BlockCost {
   conditional: bool,
   instructions: u32,
   undefined: bool,
+  /// some instruction of the block can store to memory (or push)
+  stores: bool,
 }
 
 fn block_cost(core: &Core, pc: u16, single: bool) -> BlockCost {
@@ -40,15 +42,23 @@ fn block_cost(core: &Core, pc: u16, single: bool) -> BlockCost {
   let mut at = pc;
   let mut base = 0u32;
   let mut n = 0u32;
+  let mut stores = false;
   loop {
     let op = memory_read_byte(mem, at);
     let second = memory_read_byte(mem, at.wrapping_add(1));
     let third = memory_read_byte(mem, at.wrapping_add(2));
     let info = refcpu::info(op, second);
     if info.undefined {
-      return BlockCost { base, extra_if_taken: 0, fallthrough: at, target: None, conditional: false, instructions: n, undefined: true };
+      return BlockCost { base, extra_if_taken: 0, fallthrough: at, target: None, conditional: false, instructions: n, undefined: true, stores: true };
     }
     n += 1;
+    stores |= match op {
+      0x02 | 0x12 | 0x22 | 0x32 | 0x08 | 0x34 | 0x35 | 0x36 | 0xe0 | 0xe2 | 0xea => true,
+      0x70..=0x75 | 0x77 => true,
+      0xc5 | 0xd5 | 0xe5 | 0xf5 | 0xcd | 0xc4 | 0xcc | 0xd4 | 0xdc | 0xc7 | 0xcf | 0xd7 | 0xdf | 0xe7 | 0xef | 0xf7 | 0xff => true,
+      0xcb => second & 7 == 6 && !(0x40..=0x7f).contains(&second),
+      _ => false,
+    };
     let next = at.wrapping_add(info.len as u16);
     if info.block_end || single {
       let imm16 = (second as u16) | ((third as u16) << 8);
@@ -66,12 +76,13 @@ fn block_cost(core: &Core, pc: u16, single: bool) -> BlockCost {
         conditional: info.conditional,
         instructions: n,
         undefined: false,
+        stores,
       };
     }
     base += info.cycles as u32;
     at = next;
     if n > 40000 {
-      return BlockCost { base, extra_if_taken: 0, fallthrough: at, target: None, conditional: false, instructions: n, undefined: true };
+      return BlockCost { base, extra_if_taken: 0, fallthrough: at, target: None, conditional: false, instructions: n, undefined: true, stores: true };
     }
   }
 }
@@ -158,6 +169,35 @@ fn check_program(ctx: &mut Ctx, prog: &program::Program, pidx: u64, stepper: Ste
     if running && consumed < 1 {
       report(ctx, "no-progress", step, "a running step consumed no machine cycle".to_string());
       return;
+    }
+    // --- rule 2b: every bus write of a step is made by the guest: by a store or push of the
+    // block that ran, or by the two pushes of an interrupt dispatch. The emulator itself
+    // writes nothing (a STOP, a HALT, a wake-up ... that pokes a device register is not
+    // the guest's doing, however plausible the comment next to it)
+    {
+      // writes before the delivery of the step's clocks are the block's own; writes after it
+      // are the DMA engine's (into OAM) until an interrupt dispatch begins (its two pushes)
+      let mut delivered_seen = false;
+      let mut vector_seen = false;
+      let storeless = running && cost.as_ref().map(|c| !c.stores && !c.undefined).unwrap_or(false);
+      for e in ev.iter() {
+        if e.kind == EV_DELIVER {
+          delivered_seen = true;
+        } else if e.kind == EV_IRQ_VECTOR {
+          vector_seen = true;
+        } else if e.kind == EV_WRITE {
+          let a = e.a & 0xffff;
+          let by_dma = delivered_seen && (0xfe00..0xfea0).contains(&a);
+          let by_block = !delivered_seen && running && !storeless;
+          let by_dispatch = dispatched && delivered_seen && !by_dma;
+          if !(by_dma || by_block || by_dispatch) {
+            let what = if !running { "write-during-a-suspended-step" } else if storeless && !delivered_seen { "write-without-a-store-instruction" } else { "write-after-the-block-by-neither-dma-nor-dispatch" };
+            report(ctx, what, step, format!("block at {:04X}: the bus saw a write {:04X} <- {:02X} that no instruction of the block, no DMA transfer and no interrupt dispatch accounts for", pc, a, e.b & 0xff));
+            return;
+          }
+        }
+      }
+      let _ = vector_seen;
     }
     // --- rule 3: dispatch leaves exactly five cycles for the next running step
     let cycles_left = core.registers.cycles;
